@@ -151,7 +151,7 @@ def new_system(subject):
 
 
 def ops_of(subject, tier_alphabet="full"):
-    ops = ["fit:D1", "fit:D2", "fit:D3", "transform:fit", "transform:new", "inverse_transform", "components", "scores", "accessors:normalized", "metrics", "compute", "serialize"]
+    ops = ["fit:D1", "fit:D2", "fit:D3", "transform:fit", "transform:new", "inverse_transform", "components", "scores", "accessors:normalized", "metrics", "compute", "serialize", "transform:newlist"]
     if tier_alphabet == "fit_transform":
         return ops[:5]
     if subject.endswith("+Rotator"):
@@ -193,6 +193,12 @@ def apply_op(subject, sys_, op, dsets, absstate):
         if cross:
             return _call(m.transform, dsets[d], dsets[YOF[d]])
         return _call(m.transform, dsets[d])
+    if op == "transform:newlist":
+        # other data in another (accepted) container: a one-element list where the model was fitted on the bare object
+        d = NEW[GROUP[last]]
+        if cross:
+            return _call(m.transform, [dsets[d]], [dsets[YOF[d]]])
+        return _call(m.transform, [dsets[d]])
     if op == "inverse_transform":
         if cross:
             sx, sy = m.scores()
@@ -328,10 +334,18 @@ def rounds(tier, seed):
             fp = r.get("info", {}).get("fp")
             if fp is None or r.get("violations"):
                 continue  # do not extend beyond a violating or failed state: shortest counterexample first
-            if fp in seen[c["subject"]]:
-                continue
+            merged = fp in seen[c["subject"]]
             seen[c["subject"]].add(fp)
             alphabet = "full" if level < depth else ("fit_transform" if (deep_ft and level < depth + 1) else None)
+            if merged:
+                # same visible state as one already expanded. Queries may still have left state OUTSIDE the objects the
+                # fingerprint covers, so after a non-fit op one refit on OTHER data is explored from here all the same.
+                last_op = c["history"][-1]
+                if alphabet is None or last_op.startswith("fit:") or last_op.endswith(".fit"):
+                    continue
+                other = "fit:D2" if r["info"].get("last") != "D2" else "fit:D1"
+                nxt.append(dict(subject=c["subject"], history=c["history"] + [other]))
+                continue
             if alphabet is None:
                 continue
             for op in ops_of(c["subject"], alphabet):
